@@ -102,6 +102,39 @@ fn main() {
                 }
                 "ACK 0\n".to_string()
             }
+            Some("SIGNAL") => {
+                // die by a signal instead of exiting (no exit code at all)
+                let sig: i32 = it.next().and_then(|x| x.parse().ok()).unwrap_or(9);
+                let _ = sock.write_all(b"ACK 0\n");
+                unsafe {
+                    libc::signal(sig, libc::SIG_DFL);
+                    libc::kill(libc::getpid(), sig);
+                }
+                std::thread::sleep(std::time::Duration::from_secs(5));
+                std::process::exit(99);
+            }
+            Some("RUN") => {
+                // run a nested command (hex argv) to completion with this process's environment and
+                // report how it ended: DONE <code|-1> <hex of the last 400 bytes of its stderr>
+                let argv: Vec<Vec<u8>> = it.map(unhex).collect();
+                if argv.is_empty() {
+                    "ERR 22\n".to_string()
+                } else {
+                    use std::os::unix::ffi::OsStrExt;
+                    let mut c = std::process::Command::new(std::ffi::OsStr::from_bytes(&argv[0]));
+                    for a in &argv[1..] {
+                        c.arg(std::ffi::OsStr::from_bytes(a));
+                    }
+                    c.stdin(std::process::Stdio::null());
+                    match c.output() {
+                        Ok(o) => {
+                            let e = &o.stderr[o.stderr.len().saturating_sub(400)..];
+                            format!("DONE {} {}\n", o.status.code().unwrap_or(-1), hex(e))
+                        }
+                        Err(e) => format!("ERR {}\n", e.raw_os_error().unwrap_or(-1)),
+                    }
+                }
+            }
             Some("EXIT") => {
                 let code: i32 = it.next().and_then(|x| x.parse().ok()).unwrap_or(0);
                 let _ = sock.write_all(b"ACK 0\n");
